@@ -66,6 +66,9 @@ func tblPairs(c tblCase) []kv {
 			if r.Intn(10) == 0 {
 				n = 100 + r.Intn(200)
 			}
+			if r.Intn(25) == 0 {
+				n = pick(r, 127, 128, 129, 255, 256, 16383, 16384) // varint boundaries of the key length
+			}
 			k = make([]byte, n)
 			for i := range k {
 				k[i] = byte('a' + r.Intn(4))
@@ -94,6 +97,9 @@ func tblPairs(c tblCase) []kv {
 	for i, k := range keys {
 		var v []byte
 		n := pick(r, 1, 2, 7, 30, 100, 300)
+		if r.Intn(30) == 0 {
+			n = pick(r, 127, 128, 129, 255, 256, 16383, 16384, 16385, 65535, 65536) // varint / 16-bit boundaries
+		}
 		v = make([]byte, n)
 		r.Read(v)
 		switch c.ValShape {
@@ -139,7 +145,10 @@ func tblGen(r *rand.Rand, mode string, thorough bool) tblCase {
 		ReadVerify: pick(r, 0, 0, 1, 2, 3),
 	}
 	if thorough && r.Intn(4) == 0 {
-		c.NKeys = pick(r, 500, 1000, 2000)
+		c.NKeys = pick(r, 500, 1000, 1024, 1025, 2000)
+	}
+	if r.Intn(40) == 0 {
+		c.NKeys = pick(r, 1024, 1025)
 	}
 	if c.Loader == 2 {
 		c.KeyShape = 0
